@@ -1,4 +1,6 @@
 #!/bin/sh
 # mk.sh [targets]: make in coq/ under the same lock the checks use
-cd /verif/coq && [ -f Makefile ] || coq_makefile -f _CoqProject -o Makefile >/dev/null
-exec flock /verif/.cache/lock timeout 3000 make -j16 "$@" 2>&1 | grep -v conda | grep -v "^COQ\|Closed under the global"
+V=$(cd "$(dirname "$0")/.." && pwd)
+cd "$V/coq" && { [ -f Makefile ] || coq_makefile -f _CoqProject -o Makefile >/dev/null; }
+mkdir -p "$V/.cache"
+exec flock "$V/.cache/lock" timeout 3000 make -j16 "$@" 2>&1 | grep -v conda | grep -v "^COQ\|Closed under the global"
